@@ -49,6 +49,63 @@ let run (t : string list) : string =
         Printf.sprintf "%s=%s/%s/%d" (hex_of_bytes (Stdlib.List.map n_of_int c)) (j dirs) (j tags) (Stdlib.List.length mine) in
       if n_of_string n = BinNums.N0 then "PANIC"
       else "E " ^ (if ctxs = [] then "-" else Stdlib.String.concat " " (Stdlib.List.map item ctxs))
+  | "route_burst" :: n :: millis :: count :: hs ->
+      (* count STOREs per context, every id generation reading the same millisecond (and, when a sequence is
+         exhausted, the following ones) *)
+      let m = Z.of_string millis in
+      let clock = Stdlib.List.map (fun d -> n_of_zt (Z.add m (Z.of_int d))) [0; 1; 2; 3; 4] in
+      let count = int_of_string count in
+      let ctxs = Stdlib.List.map bytes_of_hex hs in
+      let ops = Stdlib.List.concat (Stdlib.List.init count (fun i ->
+        Stdlib.List.map (fun c -> Cluster.Store (c, n_of_int i, clock)) ctxs)) in
+      if n_of_string n = BinNums.N0 then "PANIC" else begin
+        let st = Cluster.run_ops (n_of_string n) ops in
+        let log = Stdlib.List.map (fun (j, e) ->
+          (int_of_n j, Stdlib.List.map int_of_n e.Cluster.ev_ctx, e.Cluster.ev_id)) st.Cluster.cl_log in
+        let keys = Stdlib.List.sort_uniq Stdlib.compare (Stdlib.List.map (fun (_, c, _) -> c) log) in
+        let uniq l = Stdlib.List.sort_uniq Stdlib.compare l in
+        let item c =
+          let mine = Stdlib.List.filter (fun (_, c', _) -> c' = c) log in
+          let dirs = uniq (Stdlib.List.map (fun (j, _, _) -> j) mine) in
+          let tags = uniq (Stdlib.List.map (fun (_, _, id) -> int_of_n (EventId.id_shard id)) mine) in
+          let ids = uniq (Stdlib.List.map (fun (_, _, id) -> Z.to_string (zt_of_n id)) mine) in
+          let j l = Stdlib.String.concat "+" (Stdlib.List.map string_of_int l) in
+          Printf.sprintf "%s=%s/%s/%d/%s" (hex_of_bytes (Stdlib.List.map n_of_int c)) (j dirs) (j tags)
+            (Stdlib.List.length mine) (if Stdlib.List.length ids = Stdlib.List.length mine then "distinct" else "dup") in
+        "B " ^ (if keys = [] then "-" else Stdlib.String.concat " " (Stdlib.List.map item keys))
+      end
+  | "route_hist" :: n :: pool :: ops ->
+      (* engine history: P<hex,hex,...> is the pool of contexts read at every observation;
+         ops: S<x>:<hex> (an acknowledged STORE with payload key x), R (restart), O (observe); other tokens are
+         layout steps the cluster model does not distinguish (FLUSH).  Per observation: the unscoped read and the
+         read scoped to every pool context, as sorted payload keys. *)
+      let pool = Stdlib.List.filter (fun x -> x <> "")
+        (Stdlib.String.split_on_char ',' (Stdlib.String.sub pool 1 (Stdlib.String.length pool - 1))) in
+      let nn = n_of_string n in
+      if nn = BinNums.N0 then "PANIC" else begin
+        let base = Z.of_string "1700000000000" in
+        let k = ref 0 in
+        let st = ref (Cluster.cluster_init nn) in
+        let obs = ref [] in
+        let keys evs = Stdlib.String.concat ","
+          (Stdlib.List.map string_of_int (Stdlib.List.sort Stdlib.compare (Stdlib.List.map (fun e -> int_of_n e.Cluster.ev_payload) evs))) in
+        Stdlib.List.iter (fun tok ->
+          if tok = "R" then st := Cluster.apply_op !st Cluster.Restart
+          else if tok = "O" then begin
+            let all = keys (Cluster.read_all !st) in
+            let per = Stdlib.List.map (fun h -> h ^ "=" ^ keys (Cluster.read_scoped !st (bytes_of_hex h))) pool in
+            obs := ("all=" ^ all ^ ";" ^ Stdlib.String.concat ";" per) :: !obs
+          end else if Stdlib.String.length tok > 1 && tok.[0] = 'S' then begin
+            match Stdlib.String.index_opt tok ':' with
+            | Some i ->
+                let x = int_of_string (Stdlib.String.sub tok 1 (i - 1)) in
+                let h = Stdlib.String.sub tok (i + 1) (Stdlib.String.length tok - i - 1) in
+                incr k;
+                st := Cluster.apply_op !st (Cluster.Store (bytes_of_hex h, n_of_int x, [n_of_zt (Z.add base (Z.of_int !k))]))
+            | None -> ()
+          end) ops;
+        "H " ^ Stdlib.String.concat " | " (Stdlib.List.rev !obs)
+      end
   | _ -> "UNKNOWN_PROBE"
 
 let init () = Registry.register "route_" run
